@@ -21,6 +21,9 @@ pub mod minidump_format;
 
 mod serializers;
 
+#[cfg(feature = "verif-hooks")]
+pub mod verif_hooks;
+
 failspot::failspot_name! {
     pub enum FailSpotName {
         StopProcess,
